@@ -590,34 +590,35 @@ impl<TStdlib: Stdlib, TStdIn: Input, TStdOut: Printer, TLpt1: Printer>
         Ok(())
     }
 
-    fn choose_printer(&mut self) -> &mut dyn Printer {
+    fn choose_printer(&mut self) -> Result<&mut dyn Printer, RuntimeError> {
         let printer_type = self.print_state.get_printer_type();
         let file_handle = self.print_state.get_file_handle();
         match printer_type {
-            PrinterType::Print => &mut self.stdout,
-            PrinterType::LPrint => &mut self.lpt1,
+            PrinterType::Print => Ok(&mut self.stdout),
+            PrinterType::LPrint => Ok(&mut self.lpt1),
+            // a handle that is not open, or not open for writing, is a run-time error
             PrinterType::File => self
                 .file_manager
                 .try_get_file_info_output(&file_handle)
-                .expect("File not found"),
+                .map(|file_info| file_info as &mut dyn Printer),
         }
     }
 
-    fn print_comma(&mut self) -> std::io::Result<usize> {
+    fn print_comma(&mut self) -> Result<usize, RuntimeError> {
         self.print_state.on_print_comma();
-        let printer = self.choose_printer();
-        printer.move_to_next_print_zone()
+        let printer = self.choose_printer()?;
+        Ok(printer.move_to_next_print_zone()?)
     }
 
     fn print_value_from_a(&mut self) -> Result<(), RuntimeError> {
         let v = self.registers().get_a();
         match self.print_state.print_value_from_a(v)? {
             (Some(s), _) => {
-                let printer = self.choose_printer();
+                let printer = self.choose_printer()?;
                 printer.print(&s)?;
             }
             (_, Some(v)) => {
-                let printer = self.choose_printer();
+                let printer = self.choose_printer()?;
                 printer.print_variant(&v)?;
             }
             _ => panic!("print_value_from_a should return either a string or a variant"),
@@ -627,7 +628,7 @@ impl<TStdlib: Stdlib, TStdIn: Input, TStdOut: Printer, TLpt1: Printer>
 
     fn print_end(&mut self) -> Result<(), RuntimeError> {
         let (opt_remaining, should_print_new_line) = self.print_state.print_end()?;
-        let printer = self.choose_printer();
+        let printer = self.choose_printer()?;
         if let Some(remaining) = opt_remaining {
             printer.print(&remaining)?;
         }
